@@ -2,5 +2,6 @@ CONSTANTS
   Types = {}
   MaxSet = 5
   MaxAbsent = 4
+  TwoStep = FALSE
 SPECIFICATION Spec
 CHECK_DEADLOCK FALSE
